@@ -31,6 +31,14 @@ def programs(tier, rnd: random.Random):
         progs += [f"{{ if (({ty})({src} << {sh})) {{ RdV = 1; }} else {{ RdV = 2; }} }}", f"{{ if (({ty}){src}) {{ RdV = 1; }} else {{ RdV = 2; }} }}",
                   f"{{ RdV = 0; for (i = 0; ({ty})(i << {min(sh, 16)}); i++) {{ RdV = 7; }} }}",
                   f"{{ RdV = (({ty})({src} << {sh})) ? 1 : 2; }}", f"{{ RdV = !(({ty})({src} << {sh})); }}"]
+    # nested selection statements: every combination of (outer else?, inner else / else-if chain?, inner if alone in the outer body or not),
+    # three-level nests; "exactly one arm, chosen by whether the condition is non-zero" -- distinct values per arm, conditions on
+    # different registers so that the boundary states drive every combination of outcomes
+    inner = ["if (RtV) { RdV = 1; }", "if (RtV) { RdV = 1; } else { RdV = 2; }", "if (RtV) { RdV = 1; } else if (RuV) { RdV = 2; } else { RdV = 3; }",
+             "if (RtV) { if (RuV) { RdV = 1; } else { RdV = 2; } }", "if (RtV) { if (RuV) { RdV = 1; } } else { RdV = 2; }"]
+    for inn in inner:
+        progs += ["{ RdV = 0; if (RsV) { %s } }" % inn, "{ RdV = 0; if (RsV) { %s } else { RdV = 9; } }" % inn, "{ RdV = 0; if (RsV) { ReV = 5; %s } }" % inn,
+                  "{ RdV = 0; if (RsV) %s }" % inn, "{ RdV = 0; if (RsV) { RdV = 8; } else { %s } }" % inn]
     return progs
 
 
